@@ -69,3 +69,51 @@ def field_carrying(f, carry):
         if carry.get(m):
             return "via " + m.rsplit("::", 1)[-1]
     return None
+
+
+def disc_switches(facts, fn, adt_path):
+    """switches on the discriminant of a place of type `adt_path` (after peeling & and *):
+    list of dict(bb, place, arms={variant: target}, otherwise, variants_listed)"""
+    adt = facts.adts.get(adt_path)
+    out = []
+    if adt is None:
+        return out
+    names = [v["name"] for v in adt["variants"]]
+    for bb, b in enumerate(fn.blocks):
+        if b.get("cleanup"):
+            continue
+        t = b["term"]
+        if t["k"] != "switch":
+            continue
+        o = fn.origin(t["op"])
+        if o[0] != "rv" or o[1]["rv"]["k"] != "disc":
+            continue
+        pl = o[1]["rv"]["place"]
+        ty = pl["ty"].replace("&mut ", "").replace("&", "").strip()
+        if ty != adt_path:
+            continue
+        arms = {}
+        for val, tgt in t["targets"]:
+            if 0 <= val < len(names):
+                arms.setdefault(names[val], tgt)
+        out.append({"bb": bb, "place": pl, "arms": arms, "otherwise": t["otherwise"], "term": t})
+    return out
+
+
+def arm_region(fn, sw, variant):
+    """blocks executed only when the matched value is `variant` (dominated by the arm target,
+    when the target has the switch as its only predecessor)"""
+    tgt = sw["arms"].get(variant)
+    if tgt is None:
+        return set()
+    # several variants may share a target (or-patterns, `_` arms): then the region is not exclusive
+    shared = [v for v, t in sw["arms"].items() if t == tgt and v != variant]
+    if shared or tgt == sw["otherwise"]:
+        return set()
+    if len([p for p in fn.pred[tgt] if p in fn.reachable()]) != 1:
+        return set()
+    return {b for b in fn.reachable() if fn.dominates(tgt, b)}
+
+
+def is_registry_fn(cg, path):
+    return path in cg.registry
